@@ -10,7 +10,6 @@ import (
 	"strconv"
 	"strings"
 	"time"
-	"unicode"
 
 	"github.com/asticode/go-astikit"
 )
@@ -427,7 +426,8 @@ func ReadFromTTML(i io.Reader) (o *Subtitles, err error) {
 		// Remove items identation
 		lines := strings.Split(ts.Items, "\n")
 		for i := 0; i < len(lines); i++ {
-			lines[i] = strings.TrimLeftFunc(lines[i], unicode.IsSpace)
+			// (XML white space only: U+00A0, U+3000 ... at the start of a line are text)
+			lines[i] = strings.TrimLeft(lines[i], " \t\r\n")
 		}
 
 		// Unmarshal items
